@@ -377,7 +377,20 @@ impl Property for P {
         let msg = (prop_oneof![10 => gen::bytes(64), 1 => gen::bytes(600)], prop_oneof![14 => gen::bytes(40), 1 => gen::bytes(1100)]).prop_map(|(pt, aad)| Msg { pt, aad });
         let start = prop_oneof![7 => Just(0u64), 2 => gen::position(), 1 => (0u64..4).prop_map(|d| u64::MAX - d)];
         (gen::session_with(gen::suite_sealing_cheap()), proptest::collection::vec(msg, 1..=3), any::<u64>(), start, prop_oneof![6 => Just(0u16), 1 => 50u16..400])
-            .prop_map(|(sess, msgs, variant_seed, start, empty_messages)| Case { sess, msgs, variant_seed, start, empty_messages })
+            .prop_map(|(mut sess, mut msgs, variant_seed, start, empty_messages)| {
+                // relation between the two authenticated strings: the session's info equals the first
+                // message's aad (one case in eight; both empty included). An interface that authenticates
+                // the wrong one of the two is invisible otherwise.
+                match variant_seed % 16 {
+                    0 => sess.info = msgs[0].aad.clone(),
+                    1 => {
+                        sess.info = Bytes::default();
+                        msgs[0].aad = Bytes::default();
+                    }
+                    _ => {}
+                }
+                Case { sess, msgs, variant_seed, start, empty_messages }
+            })
             .boxed()
     }
     fn cases(&self, tier: Tier) -> u32 {
@@ -401,6 +414,15 @@ impl Property for P {
                 start: 0,
                 empty_messages: 0,
             });
+            // the same cell with info equal to the first message's aad, and with both empty
+            if m % 2 == 0 {
+                let mut e = gen::cell_session(s, m, 6);
+                e.info = Bytes(gen::fill(3, 5, 2));
+                cells.push(Case { sess: e, msgs: vec![Msg { pt: Bytes(gen::fill(5, 5, 1)), aad: Bytes(gen::fill(3, 5, 2)) }], variant_seed: 6, start: 0, empty_messages: 0 });
+                let mut e = gen::cell_session(s, m, 6);
+                e.info = Bytes::default();
+                cells.push(Case { sess: e, msgs: vec![Msg { pt: Bytes(gen::fill(7, 5, 1)), aad: Bytes::default() }], variant_seed: 6, start: 0, empty_messages: 0 });
+            }
         }
         // the same families at the last sequence positions, and many empty messages, per AEAD
         let mut edge = Vec::new();
